@@ -470,6 +470,7 @@ def C17(rep, prog, tier):
     preocf.rank_cache(rep, ex, preocf.CR, "c_vec2ocf", rule="CREP.cache")
     preocf.crep_init(rep, ex)
     crev.solve(rep, ex)
+    crev.front_enumeration(rep, ex)
     preocf.rank_min(rep, ex)
     preocf.accept_decision(rep, ex)
     cinf.encoding_relation(rep, ex)
